@@ -88,3 +88,19 @@ package authenticators
 //@   ensures old(len(rawConfig)) == 0 ==> ret1 == nil && unbox(ret0, *basicAuthAuthenticator) == a
 //@   ensures ret1 == nil && old(len(rawConfig)) != 0 && conf.AllowFallbackOnError != nil ==> unbox(ret0, *basicAuthAuthenticator).allowFallbackOnError == *conf.AllowFallbackOnError
 //@   ensures ret1 == nil && old(len(rawConfig)) != 0 && conf.AllowFallbackOnError == nil ==> unbox(ret0, *basicAuthAuthenticator).allowFallbackOnError == old(a.allowFallbackOnError)
+
+// ---- C11: cache keys cover endpoint, rendered URL and the presented credential ----
+//@ func (*jwtAuthenticator).calculateCacheKey
+//@   props C11
+//@   nomaprange Write
+//@   ensures ehash.n == old(ehash.n) + 1 && hw.n == old(hw.n) + 3 && hw.arg1[old(hw.n)] == ehash.ret0[old(ehash.n)] && hw.arg1[old(hw.n) + 1] == bytesOf(renderedURL) && hw.arg1[old(hw.n) + 2] == bytesOf(reference)
+
+//@ func (*oauth2IntrospectionAuthenticator).calculateCacheKey
+//@   props C11
+//@   nomaprange Write
+//@   ensures ehash.n == old(ehash.n) + 1 && hw.n == old(hw.n) + 3 && hw.arg1[old(hw.n)] == ehash.ret0[old(ehash.n)] && hw.arg1[old(hw.n) + 1] == bytesOf(templatedURL) && hw.arg1[old(hw.n) + 2] == bytesOf(token)
+
+//@ func (*genericAuthenticator).calculateCacheKey
+//@   props C11
+//@   nomaprange Write
+//@   ensures ehash.n == old(ehash.n) + 1 && hw.n == old(hw.n) + 2 && hw.arg1[old(hw.n)] == ehash.ret0[old(ehash.n)] && hw.arg1[old(hw.n) + 1] == bytesOf(reference)
